@@ -2,7 +2,7 @@
 From Coq Require Import List ZArith Permutation.
 From Coq Require Import Sorted.
 From Herc Require Import Plan.Syntax Plan.Exec Plan.Graph Plan.Checker Plan.Spec Plan.GC Plan.Hibernate Plan.Lifecycle
-  Plan.LifecycleProofs Plan.GCProofs Plan.HibernateProofs.
+  Plan.LifecycleProofs Plan.GCProofs Plan.HibernateProofs Plan.LifecyclePlain.
 Import ListNotations.
 Local Open Scope nat_scope.
 
@@ -119,3 +119,20 @@ Example C04_hib_on_diamond :
    mkA KBoot (Some 4) [1%Z]; commit_on 4 1] /\
   hb_outb (insert_hb diamond_gc 0%Z) = true /\ insert_hb diamond_gc 1%Z = diamond_gc.
 Proof. vm_compute. repeat split; reflexivity. Qed.
+
+(* ---------- [lifecycle_ok] in plain terms (no executor) ----------
+   [creates a] = the branch of an emerge / the targets of a fork; [items a] = every branch the action mentions. *)
+Theorem C04_lifecycle_plain : forall p : list action, lifecycle_ok p ->
+  (* created at most once *)
+  (forall p1 a p2 b, p = p1 ++ a :: p2 -> In b (creates a) -> Forall (fun a' => ~ In b (creates a')) p2) /\
+  (* never mentioned (used, re-created, hibernated, booted, disposed again) after its disposal *)
+  (forall p1 a p2 b, p = p1 ++ a :: p2 -> kind a = KDelete -> items a = [b] -> Forall (fun a' => ~ In b (items a')) p2) /\
+  (* a branch that is never created is never mentioned; applied to a prefix: every mention comes after the creation *)
+  (forall b, Forall (fun a => ~ In b (creates a)) p -> Forall (fun a => ~ In b (items a)) p).
+Proof.
+  intros p L. split; [|split].
+  - intros p1 a p2 b E Hb. exact (created_once p p1 a p2 b L E Hb).
+  - intros p1 a p2 b E K I. exact (no_mention_after_delete p p1 a p2 b L E K I).
+  - exact (created_before_mentioned p L).
+Qed.
+Print Assumptions C04_lifecycle_plain.
